@@ -15,12 +15,19 @@ Inductive jv :=
 
 Notation q := (""""%char) (only parsing).
 
+(* the fragment is stated for any spelling [sp] of the text between the quotes that the string
+   scanner reads back ([Hsp]); it is instantiated with the plain spelling of texts that need no
+   escapes (below) and with the escaped spelling of every printable-ASCII text (ProofsJsonEsc) *)
+Section Doc.
+Variable sp : string -> string.
+Variable okstr : string -> bool.
+
 Fixpoint print (v : jv) : string :=
   match v with
   | JNull => "null"
   | JBool true => "true"
   | JBool false => "false"
-  | JStr s => String q (s +++ String q "")
+  | JStr s => String q (sp s +++ String q "")
   | JInt z => dec z
   | JArr l =>
     String "["%char
@@ -35,8 +42,8 @@ Fixpoint print (v : jv) : string :=
       ((fix mems (l : list (string * jv)) : string :=
           match l with
           | [] => ""
-          | [(k, x)] => String q (k +++ String q (String ":"%char (print x)))
-          | (k, x) :: r => String q (k +++ String q (String ":"%char (print x))) +++ String ","%char (mems r)
+          | [(k, x)] => String q (sp k +++ String q (String ":"%char (print x)))
+          | (k, x) :: r => String q (sp k +++ String q (String ":"%char (print x))) +++ String ","%char (mems r)
           end) m +++ "}")
   end.
 
@@ -51,8 +58,8 @@ Definition print_mems :=
   fix mems (l : list (string * jv)) : string :=
     match l with
     | [] => ""
-    | [(k, x)] => String q (k +++ String q (String ":"%char (print x)))
-    | (k, x) :: r => String q (k +++ String q (String ":"%char (print x))) +++ String ","%char (mems r)
+    | [(k, x)] => String q (sp k +++ String q (String ":"%char (print x)))
+    | (k, x) :: r => String q (sp k +++ String q (String ":"%char (print x))) +++ String ","%char (mems r)
     end.
 
 (* what the parser returns: an empty array or object reads as nil, objects are sorted by key
@@ -92,11 +99,11 @@ Fixpoint safe_str (s : string) : bool :=
 
 Fixpoint wf (v : jv) : bool :=
   match v with
-  | JStr s => safe_str s
+  | JStr s => okstr s
   | JInt z => ((- 9223372036854775808 <=? z) && (z <=? 18446744073709551615))%Z
   | JArr l => (fix all (l : list jv) : bool := match l with [] => true | x :: r => wf x && all r end) l
   | JObj m => (fix all (l : list (string * jv)) : bool :=
-                 match l with [] => true | (k, x) :: r => safe_str k && wf x && all r end) m
+                 match l with [] => true | (k, x) :: r => okstr k && wf x && all r end) m
   | _ => true
   end.
 
@@ -192,6 +199,9 @@ Proof.
   replace (body +++ String q rest) with ((body +++ String q "") +++ rest) by (rewrite app_assoc_s; reflexivity).
   rewrite sdrop_app. reflexivity.
 Qed.
+
+Hypothesis Hsp : forall body rest, okstr body = true ->
+  parse_dquote (String q (sp body +++ String q rest)) = POk (body, rest).
 
 (** * unquoted words *)
 Fixpoint word_clear (w stop : string) : bool :=
@@ -398,7 +408,7 @@ Section Roundtrip.
 
   Lemma obj_loop_mems f : forall m acc n rest,
     m <> [] -> (List.length m <= n)%nat ->
-    Forall (fun kv => safe_str (fst kv) = true /\ reads_back f (snd kv)) m ->
+    Forall (fun kv => okstr (fst kv) = true /\ reads_back f (snd kv)) m ->
     obj_loop_of cfg f n (print_mems m +++ String "}"%char rest) acc
     = POk (PObj (obj_data acc m), rest).
   Proof.
@@ -413,7 +423,7 @@ Section Roundtrip.
       change (Ascii.eqb """"%char "}"%char) with false. cbv iota.
       unfold parse_key. change (Ascii.eqb """"%char """"%char) with true. cbv iota.
       rewrite app_assoc_s. cbn [String.append].
-      rewrite (parse_dquote_safe k _ Hk). cbn [pbind fst snd].
+      rewrite (Hsp k _ Hk). cbn [pbind fst snd].
       rewrite (trim_left_ascii ":"%char _ eq_refl eq_refl).
       cbn [expect_char]. change (Ascii.eqb ":"%char ":"%char) with true. cbv iota. cbn [pbind].
       rewrite (Hx objValueStopSet (String "}"%char rest) SO).
@@ -422,13 +432,13 @@ Section Roundtrip.
       rewrite (trim_left_ascii "}"%char rest eq_refl eq_refl). cbv zeta.
       change (Ascii.eqb "}"%char "}"%char) with true. cbv iota. reflexivity.
     - change (print_mems ((k, x) :: (k2, y) :: r'))
-        with (String """"%char (k +++ String """"%char (String ":"%char (print x))) +++ String ","%char (print_mems ((k2, y) :: r'))).
+        with (String """"%char (sp k +++ String """"%char (String ":"%char (print x))) +++ String ","%char (print_mems ((k2, y) :: r'))).
       cbn [String.append]. cbn [obj_loop_of].
       rewrite (trim_left_ascii """"%char _ eq_refl eq_refl).
       change (Ascii.eqb """"%char "}"%char) with false. cbv iota.
       unfold parse_key. change (Ascii.eqb """"%char """"%char) with true. cbv iota.
       rewrite ?app_assoc_s. cbn [String.append]. rewrite ?app_assoc_s. cbn [String.append].
-      rewrite (parse_dquote_safe k _ Hk). cbn [pbind fst snd].
+      rewrite (Hsp k _ Hk). cbn [pbind fst snd].
       rewrite (trim_left_ascii ":"%char _ eq_refl eq_refl).
       cbn [expect_char]. change (Ascii.eqb ":"%char ":"%char) with true. cbv iota. cbn [pbind].
       rewrite (Hx objValueStopSet _ SO).
@@ -473,7 +483,7 @@ Lemma jsize_obj m : jsize (JObj m) = S (List.length m + sum_msizes m).
 Proof. reflexivity. Qed.
 Lemma wf_arr l : wf (JArr l) = forallb wf l.
 Proof. induction l as [|x r IH]; [reflexivity|]. simpl in *. rewrite IH. reflexivity. Qed.
-Lemma wf_obj m : wf (JObj m) = forallb (fun kv => safe_str (fst kv) && wf (snd kv)) m.
+Lemma wf_obj m : wf (JObj m) = forallb (fun kv => okstr (fst kv) && wf (snd kv)) m.
 Proof. induction m as [|[k x] r IH]; [reflexivity|]. simpl in *. rewrite IH. reflexivity. Qed.
 
 Lemma in_sum_sizes x l : In x l -> jsize x <= sum_sizes l.
@@ -515,7 +525,7 @@ Proof.
     cbn [print String.append]. change (Ascii.eqb """"%char "["%char) with false.
     change (Ascii.eqb """"%char "{"%char) with false. change (Ascii.eqb """"%char """"%char) with true.
     rewrite Hd. cbn [andb]. rewrite app_assoc_s. cbn [String.append].
-    simpl in W. rewrite (parse_dquote_safe s rest W). reflexivity.
+    simpl in W. rewrite (Hsp s rest W). reflexivity.
   - (* integers *)
     cbn [print]. destruct (dec_head z) as [a [r [E [Hn Hr]]]].
     assert (parse_primitive (dec z +++ rest) stop = POk (data (JInt z), rest)) as PP.
@@ -578,7 +588,7 @@ Proof.
   - cbn [print_mems String.length]. rewrite length_app_s. cbn [String.length].
     change (sum_msizes [(k, x)]) with (jsize x + 0). cbn [List.length]. lia.
   - change (print_mems ((k, x) :: (k2, y) :: r'))
-      with (String """"%char (k +++ String """"%char (String ":"%char (print x))) +++ String ","%char (print_mems ((k2, y) :: r'))).
+      with (String """"%char (sp k +++ String """"%char (String ":"%char (print x))) +++ String ","%char (print_mems ((k2, y) :: r'))).
     rewrite length_app_s. cbn [String.length]. rewrite length_app_s. cbn [String.length]. specialize (IH Fr).
     change (sum_msizes ((k, x) :: (k2, y) :: r')) with (jsize x + sum_msizes ((k2, y) :: r')).
     cbn [List.length] in *. lia.
@@ -611,8 +621,8 @@ Proof.
   - eexists _, _. split; [vm_compute; reflexivity|split; reflexivity].
   - eexists _, _. split; [vm_compute; reflexivity|split; reflexivity].
   - eexists _, _. split; [vm_compute; reflexivity|split; reflexivity].
-  - exists """"%char, (srev (String """"%char s)). split; [|split; reflexivity].
-    cbn [print]. change (String """"%char (s +++ String """"%char "")) with ((String """"%char s) +++ String """"%char "").
+  - exists """"%char, (srev (String """"%char (sp s))). split; [|split; reflexivity].
+    cbn [print]. change (String """"%char (sp s +++ String """"%char "")) with ((String """"%char (sp s)) +++ String """"%char "").
     apply srev_snoc.
   - cbn [print]. destruct (dec_head z) as [a [r [E [Hn Hr]]]]. rewrite E.
     destruct (num_start_plain a Hn) as [Hs Hb].
@@ -652,12 +662,24 @@ Proof.
   - left. reflexivity.
 Qed.
 
+End Doc.
+
+(** the plain spelling: texts over the printable ASCII characters other than the quote and the backslash *)
+Theorem json_fragment_roundtrip_plain cfg v :
+  c_array cfg = true -> c_dq cfg = true -> c_object cfg = true ->
+  wf safe_str v = true ->
+  parse_value_with_config cfg (print (fun s => s) v) = POk (data v).
+Proof.
+  intros Ha Hd Ho W. apply (json_fragment_roundtrip (fun s => s) safe_str); try assumption.
+  intros body rest Hb. apply parse_dquote_safe. exact Hb.
+Qed.
+
 (* non-vacuity: a nested document of the fragment *)
 Example json_fragment_example :
   let v := JObj [("b", JArr [JNull; JBool true; JArr []; JObj [("x y", JStr "a{b}[c],:'d")]; JInt 18446744073709551615; JInt (-9223372036854775808)]);
                  ("a", JStr ""); ("n", JInt 0)] in
-  wf v = true /\
-  print v = "{""b"":[null,true,[],{""x y"":""a{b}[c],:'d""},18446744073709551615,-9223372036854775808],""a"":"""",""n"":0}" /\
-  parse_value_with_config DefaultConfig (print v) = POk (data v) /\
+  wf safe_str v = true /\
+  print (fun s => s) v = "{""b"":[null,true,[],{""x y"":""a{b}[c],:'d""},18446744073709551615,-9223372036854775808],""a"":"""",""n"":0}" /\
+  parse_value_with_config DefaultConfig (print (fun s => s) v) = POk (data v) /\
   data v = PObj [("a", PStr ""); ("b", PArr [PNil; PBool true; PNil; PObj [("x y", PStr "a{b}[c],:'d")]; PUint 18446744073709551615; PInt (-9223372036854775808)]); ("n", PUint 0)].
 Proof. vm_compute. repeat split; reflexivity. Qed.
